@@ -173,29 +173,40 @@ def run(ctx):
     if not done:
         r.lost(rule, 'create', 'registration of monitored items not found')
 
-    # ---------------- E1 with the table-backed discharger
+    run_e1(ctx, ENTRY, extra_auto=make_table_auto(ctx, agree))
+
+
+def operand_agreement(ctx):
+    """{evaluation fn: validated minimum operand count} for operators whose validation covers their indices"""
+    need, disp, used, vb = tables(ctx)
+    return {fn: need[v] for v, fn in disp.items() if v in need and used[v] + 1 <= need[v]}
+
+
+def make_table_auto(ctx, agree=None):
+    db = ctx.db
+    if agree is None:
+        agree = operand_agreement(ctx)
+
     def table_auto(ctx, site):
         fn = re.sub(r'::\{closure#\d+\}$', '', site.body.path)
         if not fn.startswith(OP):
             return None
         g = site.goal
         F = ctx.facts(site.body)
+        ns = [n for f, n in agree.items() if f == fn]
+        if not ns:
+            # helper functions are called by dispatched functions with the same operand slice
+            ns = [n for f, n in agree.items() if fn in {c.callee_raw for c in (db.body(f).calls() if db.body(f) else [])}]
         if g[0] == 'assert' and g[1][0] == 'BoundsCheck':
             ix = F.sym_operand(g[1][2]); ln = fmt_sym(site.body, F.sym_operand(g[1][1]))
             k = F.const_int(ix)
-            if 'operands' in ln and k is not None:
-                ns = [n for f, n in agree.items() if f == fn]
-                # helper functions are called by dispatched functions with the same slice
-                if not ns:
-                    ns = [n for f, n in agree.items() if fn in {c.callee_raw for c in (db.body(f).calls() if db.body(f) else [])}]
-                if ns and k < min(ns):
-                    return 'operands[%d]: validation guarantees >= %d operands for every operator dispatched here (table agreement rule)' % (k, min(ns))
+            if 'operands' in ln and k is not None and ns and k < min(ns):
+                return 'operands[%d]: validation guarantees >= %d operands for every operator dispatched here (C39 table agreement)' % (k, min(ns))
         if g[0] == 'api' and g[1] == 'index' and len(site.term[2]) == 2:
             recv = fmt_sym(site.body, F.sym_operand(site.term[2][0]))
             ix = F.sym_operand(site.term[2][1])
             if 'operands' in recv and ix[0] == 'agg' and ix[2].endswith('ops::RangeFrom') and F.const_int(ix[4][0]) is not None:
-                ns = [n for f, n in agree.items() if f == fn]
                 if ns and F.const_int(ix[4][0]) <= min(ns):
-                    return 'operands[%d..]: validation guarantees >= %d operands' % (F.const_int(ix[4][0]), min(ns))
+                    return 'operands[%d..]: validation guarantees >= %d operands (C39 table agreement)' % (F.const_int(ix[4][0]), min(ns))
         return None
-    run_e1(ctx, ENTRY, extra_auto=table_auto)
+    return table_auto
